@@ -48,6 +48,14 @@ def gen_c01(y0, y1):
             ev["j2n"] = _i2(e.jde())
         except Exception:
             ev["j2n"] = -2
+        if n % 5 == 2:
+            # the month helper asked for the other kind of answer first (name <-> number, both spellings)
+            for nm in (calwalk.SHORT[m - 1], calwalk.LONG[m - 1], m):
+                try:
+                    Epoch.get_month(nm, as_string=True)
+                    Epoch.get_month(nm)
+                except Exception:
+                    pass
         try:
             ev["j2s"] = _i2(Epoch(y, calwalk.SHORT[m - 1], d).jde())
         except Exception:
